@@ -359,6 +359,12 @@ def obs_serial(c: Ctx, enc, *, props, quick=True, salt=0, tmpdir=None):
             a["key_map_used"] = km_arg is True or bool(km_arg)
             a["value_map_used"] = (vm_arg is not False) if fl.typed else (isinstance(vm_arg, dict) and bool(vm_arg))
             text_holder = {}
+            import copy as _copy
+            kw_before = _copy.deepcopy({k: v for k, v in kw.items() if k != "mapper"})
+
+            def args_same(kw=kw, kw_before=kw_before):
+                """the dicts the caller passed (key_map, value_map, meta) are the caller's: save() must not edit them"""
+                return {k: v for k, v in kw.items() if k != "mapper"} == kw_before
 
             def do_save(tree=tree, kw=kw, comp=comp, target=target):
                 if target == "stream":
@@ -386,6 +392,7 @@ def obs_serial(c: Ctx, enc, *, props, quick=True, salt=0, tmpdir=None):
                 facts = header_facts(header, km_arg, vm_arg, fl, USER_META)
                 facts["list"] = lst
                 facts["keys_short"] = keys_short
+                facts["args_same"] = args_same()
                 return facts
 
             saved = call(do_save, norm_saved)
@@ -404,7 +411,8 @@ def obs_serial(c: Ctx, enc, *, props, quick=True, salt=0, tmpdir=None):
                     t2, meta = res
                     return {"canon": canon_of(t2, fl), "cls": type(t2) is cls,
                             "meta_ok": all(meta.get(k) == v for k, v in USER_META.items()),
-                            "src_same": core.project(b)["st"] == before and fl.content_intact()}
+                            "src_same": core.project(b)["st"] == before and fl.content_intact(),
+                            "args_same": args_same()}
                 if saved["s"] == "ok":
                     out.append({"q": "roundtrip", "a": a, "r": call(do_load, norm_load)})
                 elif a.get("partial"):
